@@ -1441,3 +1441,67 @@ fire("value-defines-getstate", ["C20"], "R-PL", T,
      "def _value_getstate(self):\n    return dict(self.__dict__)\n\n\nclass Apply(Generic[A, B], Evaluatable[B]):",
      also=[("    def evaluate(self, options: Options) -> A:\n        \"\"\"Return the wrapped value.\"\"\"", "    def __getstate__(self):\n        return dict(self.__dict__)\n\n    def __setstate__(self, state):\n        self.__dict__.update(state)\n\n    def evaluate(self, options: Options) -> A:\n        \"\"\"Return the wrapped value.\"\"\"")],
      note="a pickling hook on a class that holds nothing pickle refuses: reported for a look")
+
+# ------------------------------------------------------------------ round 9
+fire("casewhen-answer-compared-with-true", ["C05", "C06"], "R-SO", CO,
+     "            if condition.evaluate(options)(value):\n",
+     "            if condition.evaluate(options)(value) is True:\n",
+     note="a predicate answering with a match object, a count or numpy.bool_ no longer selects its case")
+silent("casewhen-answer-through-bool", ["C05", "C06", "C01", "C03"], CO,
+       "            if condition.evaluate(options)(value):\n",
+       "            if bool(condition.evaluate(options)(value)):\n")
+fire("lift-asks-all-parameters-for-kwargs", ["C04", "C05"], "R-KW", AP,
+     "        has_kwargs = any(\n            param.kind == param.VAR_KEYWORD for param in signature.parameters.values()\n        )",
+     "        has_kwargs = all(\n            param.kind == param.VAR_KEYWORD for param in signature.parameters.values()\n        )",
+     note="a definition with named parameters and **kwargs is taken for one without: the extra arguments given to lift/where are dropped")
+silent("lift-asks-any-over-a-list", ["C04", "C05", "C09", "C13"], AP,
+       "        has_kwargs = any(\n            param.kind == param.VAR_KEYWORD for param in signature.parameters.values()\n        )",
+       "        has_kwargs = any(\n            [param.kind is param.VAR_KEYWORD for param in signature.parameters.values()]\n        )")
+fire("implementation-function-applied-bare", ["C10", "C13"], "R-KW", IF,
+     "            overload = FunctionApplication.lift(val)\n",
+     "            overload = FunctionApplication(val)\n",
+     note="validate/keys of the member see no argument; evaluate calls the body with its raw Option defaults")
+silent("implementation-function-lifted-through-alias", ["C10", "C13", "C07"], IF,
+       "            overload = FunctionApplication.lift(val)\n",
+       "            lift = FunctionApplication.lift\n            overload = lift(val)\n")
+fire("runtime-run-calls-handler-inside-lookup-try", ["C12", "C14", "C18"], "R-DF", RT,
+     "        try:\n            handler = self.handlers[type(request)]\n        except KeyError:",
+     "        try:\n            return self.handlers[type(request)](request)\n        except KeyError:",
+     note="a KeyError raised by the handler is taken for a missing registration: the default handler answers, the failure is swallowed")
+silent("runtime-run-lookup-in-try-else", ["C12", "C14", "C18"], RT,
+       "        try:\n            handler = self.handlers[type(request)]\n        except KeyError:\n            try:\n                handler = _DEFAULT_HANDLERS[type(request)]\n            except KeyError as e:\n                raise TypeError(\n                    f\"No handler for request type {type(request).__qualname__}\"\n                ) from e\n\n        return handler(request)",
+       "        try:\n            handler = self.handlers[type(request)]\n        except KeyError:\n            try:\n                handler = _DEFAULT_HANDLERS[type(request)]\n            except KeyError as e:\n                raise TypeError(\n                    f\"No handler for request type {type(request).__qualname__}\"\n                ) from e\n            else:\n                return handler(request)\n        else:\n            return handler(request)")
+fire("contains-wraps-operand-as-constant", ["C18", "C13"], "R-HF", FN,
+     "        partial(lambda c, v: v in c, v=Evaluatable.ensure(value)),\n        f\"contains({value!r})\",",
+     "        partial(lambda c, v: v in c, v=Evaluatable.unit(value)),\n        f\"contains({value!r})\",",
+     note="an Option given as the operand is compared as an object; none of its four operations is ever issued")
+silent("contains-ensures-operand-by-hand", ["C18", "C13", "C05"], FN,
+       "        partial(lambda c, v: v in c, v=Evaluatable.ensure(value)),\n        f\"contains({value!r})\",",
+       "        partial(lambda c, v: v in c, v=value if isinstance(value, Evaluatable) else Evaluatable.unit(value)),\n        f\"contains({value!r})\",")
+fire("namespace-getattr-negation-lost", ["C20"], "R-PL", O,
+     "        if key.startswith(\"_\") and key not in self.__dict__.get(\"_members\", {}):",
+     "        if key.startswith(\"_\") and key in self.__dict__.get(\"_members\", {}):",
+     note="pickle's question for __setstate__ on the still-empty instance reads self._members: endless recursion, nothing containing a namespace can be loaded")
+silent("namespace-getattr-guard-through-helper", ["C20", "C04"], O,
+       "        if key.startswith(\"_\") and key not in self.__dict__.get(\"_members\", {}):",
+       "        declared = self.__dict__.get(\"_members\", {})\n        if key.startswith(\"_\") and not (key in declared):")
+fire("logging-helper-swaps-level-and-name", ["C16", "C18"], "R-L1", LG,
+     "    return LogRequest(logging.WARNING, name, msg, options).run()",
+     "    return LogRequest(name, logging.WARNING, msg, options).run()")
+fire("logeffect-drops-the-callers-options", ["C16", "C18"], "R-L1", LG,
+     "        return LogRequest(self.level, self.name, self.msg, options or {}).run()",
+     "        return LogRequest(self.level, self.name, self.msg, options and {}).run()",
+     note="the handler reads LABREA.LOGGING.DISABLED from the request's options: with an empty dictionary the switch is never seen")
+fire("nocache-set-keeps-the-value", ["C16"], "R-VP", C,
+     "    def set(self, evaluatable: Evaluatable, options: Options, value: Any) -> None:\n        pass\n\n\nclass MemoryCache(Cache[A]):",
+     "    def set(self, evaluatable: Evaluatable, options: Options, value: Any) -> None:\n        self.last = value\n\n\nclass MemoryCache(Cache[A]):")
+silent("nocache-set-returns-none-explicitly", ["C16", "C17"], C,
+       "    def set(self, evaluatable: Evaluatable, options: Options, value: Any) -> None:\n        pass\n\n\nclass MemoryCache(Cache[A]):",
+       "    def set(self, evaluatable: Evaluatable, options: Options, value: Any) -> None:\n        return None\n\n\nclass MemoryCache(Cache[A]):")
+fire("handle-derives-from-a-fresh-runtime", ["C14", "C16", "C18"], "R-HI", RT,
+     "    return current_runtime().handle(request, handler)",
+     "    return Runtime().handle(request, handler)",
+     note="a runtime derived inside a block loses the handlers of the enclosing one")
+silent("logging-disabled-derives-in-place", ["C14", "C16", "C18", "C12"], LG,
+       "    return runtime.handle(LogRequest, _disabled_logging_handler)",
+       "    return runtime.current_runtime().handle(LogRequest, handler=_disabled_logging_handler)")
